@@ -315,11 +315,14 @@ the row it returns = `addToCats`), `calculateBaseCategoryTotal` (= `catAmounts`)
 `calculateFinalSum` (= `finalSum` over the categories with their amounts),
 `round` (= `roundTax`), for summaries of any shape and ANY rounding primitives.
 `src_partition_by_key` restates the headline theorem over the regenerated
-`rateTotalFor`.  Not translated (they stay on their shape pins in `ExpectCalc`):
-`TotalCalculator.Calculate`, `prepareLines`, `removeIncludedTaxes`, and the two
-loops of `calculateBaseRateTotals` themselves (`srcBaseRateTotals` spells them
-out by hand around the regenerated `rateTotalFor`).  The pins of the functions
-proved here stay too (they are weaker, and cheap). -/
+`rateTotalFor`.  B24: `(*TotalCalculator).calculateBaseRateTotals` itself is
+translated too (go2lean_ownret.go: the pointer `rateTotalFor` returns is a cursor
+whose index path the twin `Total_rateTotalFor_at` reports) and proved equal to
+`srcBaseRateTotals`, hence to `baseRateTotals` (`src_calculateBaseRateTotals`);
+`src_partition_by_key_regenerated` is the headline over it.  Not translated (they
+stay on their shape pins in `ExpectCalc`): `TotalCalculator.Calculate`,
+`prepareLines`, `removeIncludedTaxes`, `mapTaxLines`, `Total.Calculate`.  The pins
+of the functions proved here stay too (they are weaker, and cheap). -/
 namespace Src
 open GoblVerif.Generated GoblVerif.TaxTotals GoblVerif.Proofs.TaxTotalsSrc
 
@@ -494,6 +497,68 @@ example : ((srcBaseRateTotals exactOps .precise 2
     CatsOk .precise 2 [] := by
   refine ⟨by decide +kernel, fun _ h => by simp at h⟩
 
+
+/-! ### the regenerated `calculateBaseRateTotals` (B24): both loops and the writes through the returned pointer -/
+
+/-- the returned-cursor reading is used exactly where reviewed: `rateTotalFor` returns a pointer to
+    `t.Categories[catTotal_at].Rates[rateTotal_at]`, `calculateBaseRateTotals` is its one user; the two
+    structs that came with it are mapped field by field -/
+theorem returned_cursors_as_reviewed :
+    TaxTotalsSrc.returnedCursors = [("Total.rateTotalFor", "t.categories[catTotal_at].rates[rateTotal_at]")] ∧
+    TaxTotalsSrc.returnedCursorUses = [("TotalCalculator.calculateBaseRateTotals", "rt := t.rateTotalFor(c, tc.zero)")] ∧
+    TaxTotalsSrc.struct_taxLine = [("total", "num.Amount"), ("taxes", "Set")] ∧
+    TaxTotalsSrc.structLean_taxLine = ("GoblVerif.TaxTotals.TaxLine", ["total", "taxes"]) ∧
+    TaxTotalsSrc.structOmitted_taxLine = [] ∧
+    TaxTotalsSrc.struct_TotalCalculator = [("Country", "l10n.TaxCountryCode"), ("Rounding", "cbc.Key"),
+      ("Currency", "currency.Code"), ("Tags", "[]cbc.Key"), ("Date", "cal.Date"), ("Lines", "[]TaxableLine"),
+      ("Includes", "cbc.Code"), ("zero", "num.Amount")] ∧
+    TaxTotalsSrc.structOmitted_TotalCalculator = [] := by decide
+
+/-- **the `_at` twin of the regenerated `rateTotalFor`**: the index path it reports is that of the first
+    category with the combo's code and of the first row in it that `matches` (the lengths where there
+    is none: the places of the appended category / row), and writing ANY `f` of the returned row at
+    that path is writing it at the place `findRow` reads (`updCats`) -/
+theorem src_rateTotalFor_at (o : Ops) (enc : List (String × String) → String) (henc : ∀ a b, enc a = enc b → a = b)
+    (c : ℕ) (t : Merge.Total) (cb : TaxTotals.Combo) (f : Merge.RateTotal → Merge.RateTotal) :
+    ∃ i j row t', @TaxTotalsSrc.Total_rateTotalFor_at (calcOps o) t cb ⟨0, c⟩ = (some i, some j) ∧
+      @TaxTotalsSrc.Total_rateTotalFor (calcOps o) t cb ⟨0, c⟩ = (some row, t') ∧
+      setAt i j (f row) t'.categories = @updCats (calcOps o) cb f t'.categories :=
+  ⟨_, _, _, _, @rateTotalFor_at_eq (calcOps o) t cb ⟨0, c⟩, @rateTotalFor_eq (calcOps o) t cb ⟨0, c⟩,
+    setAt_locCats o enc henc cb ⟨0, c⟩ f t.categories⟩
+
+/-- **the regenerated `(*TotalCalculator).calculateBaseRateTotals` is `baseRateTotals`**: for any lines, any
+    combos, any rounding rule and rounding primitives, from the empty summary `Calculate` starts with
+    (`tc.zero` the currency's zero) -/
+theorem src_calculateBaseRateTotals (o : Ops) (enc : List (String × String) → String) (henc : ∀ a b, enc a = enc b → a = b)
+    (tc : TaxTotals.Calculator) (c : ℕ) (hz : tc.zero = ⟨0, c⟩) (ls : List TaxTotals.TaxLine) (s sp : Amount) :
+    (@TaxTotalsSrc.TotalCalculator_calculateBaseRateTotals (calcOps o) tc ls ⟨[], s, sp⟩).2.categories.map (toCalcCat enc) =
+      baseRateTotals o (ruleOf tc.rounding) c ((lineRows ls).map (toCalcRow enc)) := by
+  rw [calculateBaseRateTotals_eq o enc henc tc c hz]; exact src_baseRateTotals o enc henc _ c _ s sp
+
+/-- … and it is the hand-written reading `srcBaseRateTotals` of B18, from ANY summary (sums untouched) -/
+theorem src_calculateBaseRateTotals_loops (o : Ops) (enc : List (String × String) → String) (henc : ∀ a b, enc a = enc b → a = b)
+    (tc : TaxTotals.Calculator) (c : ℕ) (hz : tc.zero = ⟨0, c⟩) (ls : List TaxTotals.TaxLine) (t : Merge.Total) :
+    (@TaxTotalsSrc.TotalCalculator_calculateBaseRateTotals (calcOps o) tc ls t).2 =
+      srcBaseRateTotals o (ruleOf tc.rounding) c (lineRows ls) t :=
+  calculateBaseRateTotals_eq o enc henc tc c hz ls t
+
+/-- **partition by key, over the regenerated `calculateBaseRateTotals`** (the C02 headline): in the summary
+    the regenerated function builds, the base of the group with key `k` in category `cat` is exactly
+    the sum of the contributions of the combos with that category and that key -/
+theorem src_partition_by_key_regenerated (enc : List (String × String) → String) (henc : ∀ a b, enc a = enc b → a = b)
+    (tc : TaxTotals.Calculator) (c : ℕ) (hz : tc.zero = ⟨0, c⟩) (cat : String) (k : Key)
+    (ls : List TaxTotals.TaxLine) (s sp : Amount) :
+    catGroupBase cat k ((@TaxTotalsSrc.TotalCalculator_calculateBaseRateTotals (calcOps exactOps) tc ls ⟨[], s, sp⟩).2.categories.map (toCalcCat enc)) =
+      (((lineRows ls).map (toCalcRow enc)).map (rowGroupContrib (ruleOf tc.rounding) c cat k)).sum := by
+  rw [src_calculateBaseRateTotals exactOps enc henc tc c hz]; exact partition_by_key _ c cat k _
+
+/-- non-vacuity: a calculator at the euro's zero, two lines; `21%` and `21.0%` land in one group (kernel
+    evaluation of the REGENERATED loops, the `_at` twin included) -/
+example : ((@TaxTotalsSrc.TotalCalculator_calculateBaseRateTotals (calcOps exactOps)
+      { country := "ES", rounding := "precise", currency := "EUR", tags := [], date := "", lines := [], includes := "", zero := ⟨0, 2⟩ }
+      [⟨⟨10000, 4⟩, [sampleCB]⟩, ⟨⟨5000, 4⟩, [{ sampleCB with percent := some ⟨⟨210, 3⟩⟩ }, { sampleCB with percent := none, surcharge := none }]⟩]
+      ⟨[], ⟨0, 2⟩, ⟨0, 2⟩⟩).2.categories.map (fun ct => ct.rates.map (fun rt => rt.base))) = [[⟨15000, 4⟩, ⟨5000, 4⟩]] := by
+  decide +kernel
 
 end Src
 
